@@ -36,8 +36,8 @@ LEVEL_NOTE = ("Trusted: Coq kernel, extraction, the live-object -> tree abstract
               "carries the value of its loaded final target (one alias per target within a merge); object identity is modelled only where the code's "
               "behaviour depends on it (second merge: settle; sequential model: which aliases end up bound to dropped stub objects). Listing orders in "
               "which a merge goes THROUGH an alias already bound to a dropped object are outside the sequential model and not generated (counted). "
-              "Expressions are their str() text. Checked, not proved: the -stubs package case of the double merge (stubs submodules loaded between the "
-              "two merges: remerge_top with subs), the sequential model against the code (its order theorem is about the model), parent/path/collection consistency, "
+              "Expressions are their str() text. The -stubs package case of the double merge is proved for submodule names not bound in the stubs "
+              "__init__ (a shadowing submodule is checked by (C) only). Checked, not proved: the sequential model against the code (its order theorem is about the model), parent/path/collection consistency, "
               "alias back-reference dicts, stubs importing loaded objects, the wildcard facade against CPython. Known findings: F4 (in-package stubs "
               "merged before wildcard expansion), F5 (double merge hands pending groups of stub-only classes to their own methods), F6 (a third "
               "module's pair between the two files of a pair: result depends on which came first, aliases left bound to dropped stub objects); each "
@@ -45,7 +45,7 @@ LEVEL_NOTE = ("Trusted: Coq kernel, extraction, the live-object -> tree abstract
               "placements only, wildcard expansion is not modelled.")
 MODEL = ("Model.C19_reload", "run_C19")
 MODEL_TARGETS = ["Model/C19_reload.vo"]
-COQ_TARGETS = ["Proofs/C19_merge.vo", "Proofs/C19_reload.vo", "Proofs/C19_chain.vo", "Proofs/C19_seq.vo"]
+COQ_TARGETS = ["Proofs/C19_merge.vo", "Proofs/C19_reload.vo", "Proofs/C19_chain.vo", "Proofs/C19_seq.vo", "Proofs/C19_subs.vo"]
 RULE = ("seeded random scope pairs: per name the runtime side is absent/attribute/function(+overloads)/class/alias and the stubs side is "
         "absent/attribute/function/overloads+implementation/overloads only/overloads after the implementation/class/alias, with ~70% overlap, ~20% "
         "kind mismatch, classes nested to depth 3, stub parameters a random subset of the runtime ones plus extras, docstrings present/missing on each "
@@ -820,7 +820,9 @@ def _run_case(ctx, d, case, py, pyi, stream, use_model, idx):
     extra_stub, extra_rt, nested_c = (idx // 2) % 2 == 1, (idx // 4) % 2 == 1, nested and (idx // 8) % 2 == 1
     write(d / "C" / "pkgc" / "__init__.py", '"""R package."""\n')
     write(d / "C" / "pkgc" / "m.py", py)
-    write(d / "C" / "pkgc-stubs" / "__init__.pyi", "P: int\n")
+    shadow = (idx // 16) % 2 == 1       # the stubs __init__ also binds the name of a stubs submodule (loaded over it before the second merge)
+    write(d / "C" / "pkgc-stubs" / "__init__.pyi", "P: int\n" + ("m: int\n" if shadow else ""))
+    ctx.observe("stubs_package_submodule_shadows_stub_member", int(shadow))
     write(d / "C" / "pkgc-stubs" / "m.pyi", pyi)
     if nested_c:     # the same pair once more as a nested subpackage of the runtime package and of the stubs package
         write(d / "C" / "pkgc" / "sub" / "__init__.py", py)
@@ -1598,7 +1600,7 @@ def run_seq_load(d, files, order):
         return _err(e)
 
 
-def run_interleaved_case(ctx, idx, py, pyi, use_model=True, order=None):
+def run_interleaved_case(ctx, idx, py, pyi, use_model=True, order=None, pair=None):
     d = ctx.scratch / f"seq{idx}"
     try:
         write(d / "in" / "m.py", py)
@@ -1615,7 +1617,7 @@ def run_interleaved_case(ctx, idx, py, pyi, use_model=True, order=None):
                  # ... and an alias to the pair's MODULE itself, re-declared by via's stubs so that merging binds it
                  "via.py": "from pkg.user import " + ", ".join(names) + "\nfrom pkg import m as mod_m\n",
                  "via.pyi": _restub(pyi, "V", {"int": "frozenset", "float": "memoryview"}) + "mod_m: int\n"}
-        pair = ("m", "user", "via")[idx % 3]
+        pair = pair or ("m", "user", "via")[idx % 3]
         trees = {fn: abstract(visit_file(d / "Q0" / fn, fn.split(".")[0])) for fn in files if not write(d / "Q0" / fn, files[fn])}
 
         def swap(o):
@@ -1650,7 +1652,7 @@ def run_interleaved_case(ctx, idx, py, pyi, use_model=True, order=None):
             ctx.count("interleaved_orders_redrawn(merge through a stale alias)")
             if tries > 12:
                 return
-        case = {**{k: v for k, v in files.items()}, "order": order, "stream": "interleaved-third-files"}
+        case = {**{k: v for k, v in files.items()}, "order": order, "pair": pair, "stream": "interleaved-third-files"}
         ctx.case(case, True)
         ctx.observe("stream", "interleaved-third-files")
         pos = {f: k for k, f in enumerate(order)}
@@ -1782,6 +1784,20 @@ def replay(ctx, data):
                 print("MODEL DISAGREES:", t["name"], json.dumps(t["detail"], default=str)[:1500])
             for f in ctx.prop_failures:
                 print("PROPERTY FAILURE:", json.dumps(f["detail"], default=str)[:1500], "classified:", f["classified_as"])
+        finally:
+            shutil.rmtree(ctx.scratch, ignore_errors=True)
+        return 0
+    if case.get("stream") == "interleaved-third-files":
+        for fn in ("m.py", "m.pyi", "user.py", "user.pyi", "via.py", "via.pyi"):
+            print(f"---- pkg/{fn}\n" + case[fn], end="")
+        print("listing order:", case["order"], "- and with the two files of", case.get("pair", "m"), "swapped")
+        ctx.scratch.mkdir(parents=True, exist_ok=True)
+        try:
+            run_interleaved_case(ctx, 0, case["m.py"], case["m.pyi"], use_model=ctx.driver is not None, order=list(case["order"]), pair=case.get("pair", "m"))
+            for f in ctx.prop_failures:
+                print("PROPERTY FAILURE:", json.dumps(f["detail"], default=str)[:1500], "classified:", f["classified_as"])
+            for t in ctx.tie_failures:
+                print("MODEL DISAGREES:", t["name"], json.dumps(t["detail"], default=str)[:1500])
         finally:
             shutil.rmtree(ctx.scratch, ignore_errors=True)
         return 0
